@@ -105,9 +105,10 @@ def pair_costs(R, rep):
         c = agg_fields(R.terms(b, 0).rvalue(_agg_stmt(b, bb)["rv"]))["allowable_cost"] if _agg_stmt(b, bb) else agg_fields(term)["allowable_cost"]
         ws = [w for w in R.field_writes(POOL, "total_cost", [b]) if w[2] == "SubAssign"]
         ws0 = []
+        tbw = tb if _agg_stmt(b, bb) else R.terms(b)   # same inlining depth as the leg term it is compared with
         for i, t in b.calls():
             if is_decimal_arith_assign(t["callee"]) == "SubAssign" and R._ref_target(b, op_place(t["args"][0])) == (POOL, "total_cost"):
-                ws0.append(tb.operand(t["args"][1]))
+                ws0.append(tbw.operand(t["args"][1]))
         ok = len(ws0) == 1 and ws0[0] == c
         rep.ob("R1", "Section104:pool.total_cost−=Match.allowable_cost", ok, "the pool's cost falls by exactly the cost attributed to the leg" if ok else
                f"pool.total_cost is reduced by {[show(x)[:60] for x in ws0] or 'nothing'} but the leg records {show(c)[:60]}", site, key="R1:Section104:cost")
@@ -233,8 +234,10 @@ def offsets_prov(R, rep):
     rg = R.region(d)
     for it in rg.calls(lambda c: c.endswith("AcquisitionLedger::add_acquisition")):
         b, t, tb = it["body"], it["term"], it["tb"]
-        args = [tb.operand(a) for a in t["args"]]
+        tb2 = R.terms(b, 2)     # accessors such as `timeline.cost_offset(idx)` are seen through
+        args = [tb.operand(a) for a in t["args"][:-1]] + [tb2.operand(t["args"][-1])]
         idx = args[1]
+        idx2 = tb2.operand(t["args"][1])
         extras = args[-1]
         off = None
         for x in subterms(extras):
@@ -243,7 +246,7 @@ def offsets_prov(R, rep):
         if off is None and isinstance(extras, tuple) and extras[0] == "call":
             off = extras[2][0]
         gets = [x for x in subterms(off) if isinstance(x, tuple) and x and x[0] == "call" and parse_callee(x[1])[2] == "get"] if off is not None else []
-        ok = bool(gets) and gets[0][2][1] == idx
+        ok = bool(gets) and gets[0][2][1] in (idx, idx2)
         src = it["conv"](gets[0][2][0]) if gets else None
         from_pre = src is not None and any(isinstance(x, tuple) and x and x[0] == "call" and x[1] == pre.id for x in subterms(src))
         rep.ob("R3", "add_acquisition:offset-at-own-index", ok and from_pre,
